@@ -19,6 +19,10 @@ Check(t) ==
     ELSE IF t.fast.pgrad # t.plain.pgrad THEN "fast-path-parameter-gradient"
     ELSE IF t.fast.pgrad_d # t.plain.pgrad_d THEN "fast-path-parameter-gradient-of-derivative-loss"
     ELSE IF t.fast3.out # t.plain.out3 \/ t.fast3.pgrad # t.plain.pgrad3 THEN "fast-path-with-copied-trunk-input"
+    \* the trunk points repeated for every function (B, N, d), as the physics-informed condition hands them over: the derivatives w.r.t.
+    \* every copy of the points, and the parameter gradients of a loss containing them
+    ELSE IF "dx3" \in DOMAIN t.plain /\ (t.fast3.dx # t.plain.dx3 \/ t.fast3.lap # t.plain.lap3) THEN "fast-path-derivative-with-copied-trunk-input"
+    ELSE IF "pgrad_d3" \in DOMAIN t.plain /\ t.fast3.pgrad_d # t.plain.pgrad_d3 THEN "fast-path-parameter-gradient-of-derivative-loss-with-copied-trunk-input"
     ELSE "ok"
 Init == tid \in 1..Len(Traces) /\ verdict = Check(Traces[tid]) /\ dev = ""
 Next == FALSE /\ UNCHANGED <<tid, verdict, dev>>
